@@ -820,7 +820,7 @@ static int ec_substitute(char *loc, char *cmd, char *arg, char *txt)
 			sbuf_mem(r, ln, offs[0]);
 			replace(r, xrep, ln, offs);
 			ln += offs[1];
-			if (offs[1] <= 0) {	/* zero-length match */
+			if (offs[1] <= offs[0]) {	/* zero-length match */
 				char *nx = uc_next(ln);
 				sbuf_mem(r, ln, nx - ln);
 				ln = nx;
